@@ -257,19 +257,23 @@ partial def runItems (ownWo : Bool) (tc : TestCase) (drv : Driver (List DrvResp)
         " out=" ++ dumpOutputs tc r ++ " vars=" ++ dumpVars s'.vars)
       runItems ownWo tc drv cap (k + 1) s' d' nErr virtRandom acc
 
-partial def runStatic (tc : TestCase) (cap : Nat) (k : Nat) (s : RowIt) (acc : Array String) : Array String :=
+partial def runStatic (tc : TestCase) (cap : Nat) (k : Nat) (s : RowIt) (nErr : Nat) (acc : Array String) : Array String :=
   if k ≥ cap then acc.push ("sitem " ++ toString k ++ " cap")
   else
-    match s.next tc staticDriver 200000 () with
+    match s.nextC tc staticDriver 200000 () with
     | .panic m _ => acc.push ("sitem " ++ toString k ++ " panic " ++ m)
     | .fuel => acc.push ("sitem " ++ toString k ++ " fuel")
     | .none _ _ => acc.push ("sitem " ++ toString k ++ " none")
     | .item (.err (.driver _)) _ _ _ => acc.push ("sitem " ++ toString k ++ " panic unreachable")
-    | .item (.err e) _ _ _ => (acc.push ("sitem " ++ toString k ++ " err runtime")).push ("# " ++ errDetail e)
+    | .item (.err e) s' _ _ =>
+      -- continued behind error items (up to five), behind a `posterr` marker, like the dynamic run
+      let acc := (acc.push ("sitem " ++ toString k ++ " err runtime")).push ("# " ++ errDetail e)
+      let acc := if nErr == 0 then acc.push "posterr" else acc
+      if nErr + 1 ≥ 5 then acc else runStatic tc cap (k + 1) s' (nErr + 1) acc
     | .item (.row r) s' _ _ =>
       let acc := acc.push ("sitem " ++ toString k ++ " row line=" ++ toString r.line ++ " in=" ++ dumpInputs tc r.inputs ++
         " exp=[" ++ ",".intercalate (r.outputs.map fun e => sigName tc e.sig ++ ":" ++ showExp e.expected) ++ "]")
-      runStatic tc cap (k + 1) s' acc
+      runStatic tc cap (k + 1) s' nErr acc
 
 /-- `run <hexsrc> <nsig> sig* <ownWo> <ncalls> resp* <nepochs> (<len> (<bound> <value>)*len)* <cap> <static:0|1>` -/
 def cmdRun (c : Cur) : Array String := Id.run do
@@ -316,7 +320,7 @@ def cmdRun (c : Cur) : Array String := Id.run do
         | .panic m => out := out.push ("static panic " ++ m)
         | .ok s =>
           out := out.push "static ok"
-          out := runStatic tc cap 0 s out
+          out := runStatic tc cap 0 s 0 out
       else
         match tryNew tc drv script rng with
         | .panic m => out := out.push ("ctor panic " ++ m)
